@@ -50,7 +50,53 @@ def is_string_cls(cls):
     return cls.startswith('std::basic_string<') or cls.startswith('std::__cxx11::basic_string<')
 
 
-def may_throw(f, st):
+def _size_like(f, e, depth=0, prog=None):
+    """the expression is built from constants and sizes of existing objects (x.size(), x.length(), x.capacity(), sizeof) with + - * / only, or is a
+    local/parameter holding such a value (parameters named like a size of data already received are accepted: data_size, len, size)"""
+    if e is None or depth > 8:
+        return False
+    st = f.s(f.strip_casts(e))
+    if st is None:
+        return False
+    if st.get('cv') is not None:
+        return True
+    k = st['k']
+    if k in ('ParenExpr', 'ExprWithCleanups', 'MaterializeTemporaryExpr', 'CXXBindTemporaryExpr'):
+        return _size_like(f, st['ch'][0], depth + 1, prog)
+    if k in q.CALL_KINDS and st.get('fn') in ('size', 'length', 'capacity') and not st.get('args'):
+        return True
+    if k in q.CALL_KINDS and (st.get('callee') or '').startswith(('std::min', 'std::max')):
+        return any(_size_like(f, a, depth + 1, prog) for a in st.get('args', [])) if (st.get('callee') or '').startswith('std::min') else \
+            all(_size_like(f, a, depth + 1, prog) for a in st.get('args', []))
+    if k == 'BinaryOperator' and st.get('op') in ('+', '-', '*', '/', '%', '>>'):
+        return _size_like(f, st['ch'][0], depth + 1, prog) and _size_like(f, st['ch'][1], depth + 1, prog)
+    if k == 'UnaryExprOrTypeTraitExpr':
+        return True
+    if k == 'DeclRefExpr' and st.get('dk') == 'ParmVar':
+        # the length of a buffer the caller already holds
+        return 'size' in (st.get('n') or '') or 'len' in (st.get('n') or '')
+    if k == 'MemberExpr' and st.get('mk') == 'field' and prog is not None and f.cls and depth < 4:
+        # a cursor/length field of the object: every assignment in its class gives it a constant, a size-like value, or advances it by one
+        base = f.s(f.strip_casts(st['ch'][0])) if st.get('ch') else None
+        if base is None or base['k'] == 'CXXThisExpr':
+            fq = st.get('q') or ''
+            seen = False
+            for g in prog.methods_of(prog.outermost(f).cls or f.cls):
+                for a, rhs in q.assigns(g, fq.split('::')[-2] + '::' + fq.split('::')[-1] if fq.count('::') else fq):
+                    seen = True
+                    if a['k'] == 'CompoundAssignOperator' and a.get('op') not in ('+=', '-='):
+                        return False
+                    if not _size_like(g, rhs, depth + 2, prog):
+                        return False
+            return seen
+    if k == 'DeclRefExpr' and st.get('dk') == 'Var' and not st.get('gl'):
+        from . import rd
+        defs = rd.local_defs(f, st['d'])
+        return bool(defs) and all(d['kind'] in ('init', '=', '+=', '++') and (d['rhs'] is None or _size_like(f, d['rhs'], depth + 1, prog)) for d in defs)
+    return False
+
+
+def may_throw(f, st, prog=None):
     """set of exception types a std/3rd-party call may raise for *some* argument values
     (None if the statement is not a potential thrower)"""
     k = st['k']
@@ -71,6 +117,11 @@ def may_throw(f, st):
         return {'std::out_of_range'}, cls.split('<')[0] + '::at'
     if is_string_cls(cls) and fn in STR_POS_FUNCS:
         return {'std::out_of_range'}, 'std::string::' + fn
+    if fn in ('reserve', 'resize') and (is_string_cls(cls) or cls.startswith('std::vector')) and st.get('args'):
+        # a request for n elements throws std::length_error beyond max_size() (and bad_alloc well before): harmless when n is the size of something that
+        # already exists in memory, a crash on demand when n comes from the input
+        if not _size_like(f, st['args'][0], 0, prog):
+            return {'std::length_error', 'std::bad_alloc'}, cls.split('<')[0] + '::' + fn + '(n)'
     if cls.startswith('nlohmann::') or callee.startswith('nlohmann::'):
         if fn in ('parse',):
             return {'nlohmann::json::parse_error'}, 'json::parse'
@@ -144,7 +195,7 @@ class ExcEngine:
                 if not st:
                     continue
                 here = list(cov) + self.try_cover(f, st['i'])
-                mt = may_throw(f, st)
+                mt = may_throw(f, st, self.prog)
                 if mt is None and self.extra_throwers:
                     mt = self.extra_throwers(f, st)
                 if mt is not None:
